@@ -41,6 +41,7 @@ MAT = {"MAT1": ["acute", "grave"], "MAT2": ["cedilla", "ogonek"]}
 SCRIPTS = {"latn": ["TRK ", "NLD "], "cyrl": ["SRB "], "grek": []}
 KEYWORDS = set(KW)
 VERTICAL = ["vkrn", "vpal", "vhal", "valt"]
+DEVICE_EDGES = [-128, -127, -10, -9, -9, -8, -7, -3, -2, -1, 0, 1, 2, 7, 8, 9, 126, 127]
 _ANY = ("single", "multiple", "ligature")
 FAMILY = {"single": _ANY, "multiple": _ANY, "ligature": _ANY, "chain": ("chain",), "rchain": ("rchain",),
           "alternate": ("alternate",), "spos": ("spos",), "ppos": ("ppos",), "curs": ("curs",), "mbase": ("mbase",),
@@ -67,6 +68,7 @@ class Lk(object):
         self.index = None
         self.feature_value = None        # for alternates: number of alternates
         self.seqs = [list(w) for w in wit]  # plain input sequences (no sprinkled glyphs)
+        self.devs, self.mark_devs = [], []  # <device> tables written inside the lookup / in the mark classes it uses
 
 
 class FeaGen(object):
@@ -94,6 +96,8 @@ class FeaGen(object):
         self.vrdefs = {}
         self.inferred = {}     # glyph -> class from pos base/ligature/mark statements
         self.vertical = False  # inside a vertical feature block a bare number means YAdvance
+        self._devlog = []      # (StartSize, EndSize, DeltaFormat, deltas) of every <device> written so far
+        self.markclass_devs = []
 
     # ------------------------------------------------------------ text helpers
     def g(self, name):
@@ -226,7 +230,49 @@ class FeaGen(object):
             v = (rnd.choice([0, nz()]), rnd.choice([0, nz()]), rnd.choice([0, nz()]), rnd.choice([0, 0, 0, nz()]))
             if any(v):
                 break
+        if rnd.random() < 0.3:
+            # format C: the four values followed by four device tables
+            ex, parts = {}, []
+            chosen = rnd.sample(["xp", "yp", "xa", "ya"], rnd.choice([1, 1, 2, 3]))
+            if not set(chosen) & {"xp", "yp", "xa"}:
+                chosen.append("xa")
+            for f in ("xp", "yp", "xa", "ya"):
+                if f in chosen:
+                    t, e = self.device()
+                    ex[f] = e
+                    parts.append(t)
+                else:
+                    parts.append("<device NULL>")
+            self.stmt_kinds.add("valuerecord-device")
+            return "<%d %d %d %d %s>" % (v + (" ".join(parts),)), v + (ex,)
         return "<%d %d %d %d>" % v, v
+
+    def device(self):
+        """A `<device ...>` with deltas at and around every DeltaFormat boundary at both ends of
+        its ppem range.  -> (text, {"dev": {ppem: pixels}})"""
+        rnd = self.rnd
+        n = rnd.choice([1, 2, 2, 3, 4])
+        start = rnd.randrange(8, 20)
+        sizes = sorted(rnd.sample(range(start, start + 7), n))
+        ds = [rnd.choice(DEVICE_EDGES) for _ in sizes]
+        for i in range(1, len(ds) - 1):
+            if rnd.random() < 0.6:
+                ds[i] = rnd.randrange(-2, 2)
+        if not any(ds):
+            ds[0] = rnd.choice([-9, -2, 1, 8])
+        if rnd.random() < 0.5:
+            # keep the whole table inside one format, the extremes sitting at the ends of the range
+            lo, hi = rnd.choice([(-2, 1), (-8, 7), (-9, 7), (-8, 8), (-128, 127)])
+            ds = [min(max(d, lo), hi) for d in ds]
+            ds[0] = rnd.choice([lo, hi])
+            ds[-1] = rnd.choice([lo, hi, 0])
+        dev = dict(zip(sizes, ds))
+        full = tuple(dev.get(p_, 0) for p_ in range(sizes[0], sizes[-1] + 1))
+        fmt = 1 if (min(full) >= -2 and max(full) <= 1) else 2 if (min(full) >= -8 and max(full) <= 7) else 3
+        rec = (sizes[0], sizes[-1], fmt, full)
+        self._devlog.append(rec)
+        self.stmt_kinds.add("device")
+        return "<device %s>" % ", ".join("%d %d" % kv for kv in sorted(dev.items())), {"dev": dev}
 
     def anchor(self, allow_null=False):
         """-> (text, (x, y) | None)"""
@@ -235,6 +281,18 @@ class FeaGen(object):
             return "<anchor NULL>", None
         x, y = rnd.randrange(-50, 600), rnd.randrange(-300, 800)
         r = rnd.random()
+        if self.level >= 3 and r > 0.88:
+            ex, parts = {}, []
+            which = rnd.choice(["x", "y", "xy"])
+            for f in ("x", "y"):
+                if f in which:
+                    t, e = self.device()
+                    ex[f] = e
+                    parts.append(t)
+                else:
+                    parts.append("<device NULL>")
+            self.stmt_kinds.add("anchor-device")
+            return "<anchor %d %d %s>" % (x, y, " ".join(parts)), (x, y, ex)
         if r < 0.2:
             if not self.anchordefs or rnd.random() < 0.5:
                 name = "AN%d" % (len(self.anchordefs) + 1)
@@ -1057,7 +1115,10 @@ class FeaGen(object):
     def new_lookup(self, named, exclude=()):
         ks = [k for k in self.kinds() if k not in exclude]
         kind = self.rnd.choice(ks)
+        n0 = len(self._devlog)
         lk = getattr(self, "k_" + kind)(named)
+        lk.devs = list(self._devlog[n0:])
+        lk.mark_devs = list(self.markclass_devs) if kind in ("mbase", "mlig", "mmark") else []
         self.stmt_kinds.add(kind)
         return lk
 
@@ -1110,6 +1171,7 @@ class FeaGen(object):
                     self.pre.append("markClass %s %s @%s;" % (self.cls(grp), at, cname))
                     defs.append((grp, a))
                 self.markclasses[cname] = defs
+            self.markclass_devs = list(self._devlog)
             for name, gl in sorted(MAT.items()):
                 self.pre.append("@%s = %s;" % (name, self._inline(gl)))
             self.stmt_kinds.add("markClass")
@@ -1293,7 +1355,12 @@ class FeaGen(object):
                 if not idx:
                     continue
                 model["langsys"][table].setdefault(sc, {}).setdefault(lg, {"features": {}, "required": []})["features"][tag] = idx
-        return {"fea": fea, "model": model, "tags": tags, "alt_values": alt_values,
+        sure = set()
+        for table in ("GSUB", "GPOS"):
+            for l_ in self.lookups[table]:
+                sure.update(l_.devs)
+        return {"devices_all": sorted(set(self._devlog)), "devices_sure": sorted(sure),
+                "fea": fea, "model": model, "tags": tags, "alt_values": alt_values,
                 "lookups": self.lookups, "kinds": sorted(self.stmt_kinds), "langsys": list(self.langsys),
                 "feat": feat}
 
@@ -1346,6 +1413,24 @@ def make_texts(rnd, prog, n_random=12):
                     k = rnd.randrange(1, len(w))
                     sc, lg, tag = rnd.choice(users)
                     texts.append(("mark-interleaved", list(w[:k]) + [rnd.choice(allmarks)] + list(w[k:]), {tag: 1}, sc, lg))
+    # lookups with hinting Device tables: their witnesses at every ppem of the device ranges
+    for lk in prog["lookups"]["GPOS"]:
+        devs = lk.devs + lk.mark_devs
+        if not devs:
+            continue
+        ppems = set()
+        for d in devs:
+            ppems.update(range(d[0] - 1, d[1] + 2))
+        users = sorted(by_lookup.get(("GPOS", lk.index), ()))
+        for w in lk.wit[:4]:
+            for p_ in sorted(ppems):
+                if users:
+                    sc, lg, tag = users[0]
+                    texts.append(("witness-ppem", w, {tag: 1}, sc, lg, None, p_))
+                else:
+                    texts.append(("unreferenced-ppem", w, allon, "DFLT", "dflt", None, p_))
+        for p_ in rnd.sample(sorted(ppems), min(3, len(ppems))):
+            texts.append(("random-ppem", [rnd.choice(sorted(alphabet) or ["a"]) for _i in range(rnd.randrange(2, 6))], allon, "DFLT", "dflt", None, p_))
     # ordering texts: concatenated witnesses of different lookups, all features on
     wl = [w for table in ("GSUB", "GPOS") for lk in prog["lookups"][table] for w in lk.wit]
     for _ in range(min(8, len(wl))):
